@@ -396,6 +396,20 @@ pub fn run(out: &mut Out, tier: &str, seed: u64, prop: &str) {
     }
     // ---- hostile ---------------------------------------------------------------------------------------
     if prop == "C06" {
+        // trailing input of every width mix after a complete marker (char-counted span)
+        {
+            let alphabet = ["a", "é", "語", "\u{1F600}"];
+            let mut frontier = vec![String::new()];
+            for _ in 0..4 {
+                let mut next = vec![];
+                for s in &frontier { for a in alphabet { next.push(format!("{s}{a}")); } }
+                for s in &next {
+                    req_case(out, &mut w, &mut rc, prop, &format!("numpy ; os_name == 'a' {s}"), &vars);
+                    out.stat("trailing.width_mix");
+                }
+                frontier = next;
+            }
+        }
         let n = if big { 8000 } else { 1500 };
         let seeds = ["requests [security,tests] >= 2.8.1, == 2.8.* ; python_version > \"3.8\"", "name @ https://x.org/a ; os_name == 'a'", "a(>=1,<2)", "foo[a-]", "name- >=1", "name_[a]", "n.;x", "a[b] @ file:///x", "", " ", "a;", "a@", "a[", "a(", "pkg>=1.0;extra=='x'"];
         for i in 0..n {
@@ -470,12 +484,32 @@ pub fn run(out: &mut Out, tier: &str, seed: u64, prop: &str) {
             "requests-2.26.0.tar.gz", "foo.whl", "x.zip", "a.tar.bz2", "a.tgz", "pkg-1.0.tar.xz", "A.TAR.GZ", "a.tar", "a.tbz", "a.tar.lzma", "dir/a.whl", "~/x", "\\\\server\\share", "foo.tar.gz.sig",
             "${VP_HOME_DIR}/x", "a.tlz", "a.txz", "a.tar.lz", "b.b.zip", "n.gz", "tar.gz", "x.tar.gz2"];
         let suffixes = ["", "[dev]", " ; os_name == 'a'", "[dev,test] ; python_version > '3'", " [x]", "  "];
-        for sh in shapes {
+        // generated: every scheme form x rest, first path segments that are / are not valid names, and
+        // leading whitespace before every shape
+        let mut all: Vec<(String, bool)> = shapes.iter().map(|s| (s.to_string(), true)).collect();
+        for scheme in ["file", "http", "git+file", "mailto", "C", "x-y.z", "a1", "svn+ssh", "A", "a-", "git-", "x.y.", "a_b-"] {
+            for rest in ["editable", "project", "repo.git", "ferris@example.org", "//h/p", "/p", ""] {
+                // `_` is not a scheme character: only judged when something else makes it a path
+                if scheme.contains('_') && !rest.contains('/') { continue; }
+                all.push((format!("{scheme}:{rest}"), false));
+            }
+        }
+        for seg in ["dir", "dir_", "a.", "a-b", "9", "a-", "x_y."] {
+            for sep in ["/", "\\"] {
+                for tail in ["p", "p.whl", ""] { all.push((format!("{seg}{sep}{tail}"), false)); }
+            }
+        }
+        let n0 = all.len();
+        for i in 0..n0 {
+            for lead in [" ", "\t ", "  "] { let (t, _) = all[i].clone(); all.push((format!("{lead}{t}"), false)); }
+        }
+        for (sh, handpicked) in &all {
+            let sh = sh.as_str();
             for suf in suffixes {
                 let text = format!("{sh}{suf}");
                 let ans = req_case(out, &mut w, &mut rc, prop, &text, &vars);
                 out.nontrivial(text.clone());
-                let is_shape = !matches!(sh, "foo.tar.gz.sig" | "n.gz" | "tar.gz" | "x.tar.gz2" | "A.TAR.GZ");
+                let is_shape = !matches!(sh.trim_start(), "foo.tar.gz.sig" | "n.gz" | "tar.gz" | "x.tar.gz2" | "A.TAR.GZ");
                 if is_shape {
                     if ans.starts_with("ok ") {
                         out.oracle_fail("C19", "a bare URL / path / archive name was accepted as a named requirement", serde_json::json!({"text": text, "answer": ans}));
@@ -484,7 +518,8 @@ pub fn run(out: &mut Out, tier: &str, seed: u64, prop: &str) {
                     } else { out.stat("c19.unsupported"); }
                 }
                 #[cfg(feature = "ext")]
-                unnamed_oracle(out, &text, sh, suf);
+                if *handpicked { unnamed_oracle(out, &text, sh, suf); }
+                let _ = handpicked;
                 // url helpers: implementation vs Lean model
                 out.evaluations += 1;
                 let sch = match pep508_rs::split_scheme(&text) { Some((a, b)) => format!("{}:{}", hex(a), hex(b)), None => "none".into() };
